@@ -149,7 +149,7 @@ def enumerate_mutants(prop: str, root: str = "/repo"):
 
 def _run(job):
     m, root = job
-    from check import run_property
+    from check import decide_property as run_property
     path = os.path.join(root, m["rel"])
     tree = ast.parse(open(path, encoding="utf-8").read())
     fn = _find_func(tree, m["qual"])
